@@ -5,6 +5,7 @@ the tuple shape that makes `sorted(verinfos)[-1]` the highest sequence number,
 and the completion predicate of the MODE_READ servermap update (DESIGN.md
 section 5, C11)."""
 from sa.h import *
+from sa.cfg import reaching_defs
 
 EXPLANATION = (
     "Decided: (1) every store of Publish._new_seqnum is servermap.highest_seqnum() + c with c >= 1, or a constant "
@@ -12,16 +13,24 @@ EXPLANATION = (
     "argument of every write proxy, stored once as the proxy's _seqnum and packed into the seqnum slot of the "
     "checkstring and of the signed prefix; highest_seqnum() is the maximum of the seqnum slot over every version in "
     "shares_available() with no filter, and shares_available()/make_versionmap() enter every known share whether "
-    "or not its version is recoverable; (2) all three verinfo producers put seqnum at index 0 and root hash at "
+    "or not its version is recoverable; ServerMap.add_new_share() enters the share on every path, keyed and shaped "
+    "as make_versionmap() takes it apart, with the parameter the updater binds to the re-packed verinfo at the "
+    "version field; (2) all three verinfo producers put seqnum at index 0 and root hash at "
     "index 1 (and k where recoverable_versions() reads it), _make_verinfo_hashable keeps the positions, the read "
     "proxy's seqnum is the header field the writer packed it into; best_recoverable_version() is the last element "
     "of the plainly sorted recoverable versions (or their max); a version counts as recoverable only with >= k "
-    "distinct share numbers; an unrequested read version is best_recoverable_version(); (3) in MODE_READ, "
+    "distinct share numbers; best_recoverable_version() answers None only on the branch where the recoverable "
+    "versions were found empty; an unrequested read version is best_recoverable_version(); (3) in MODE_READ, "
     "ServermapUpdater._check_for_done reaches _done() only when no query is outstanding and no server is left, or "
     "after the query quota is met, a recoverable version exists, and the loop over unrecoverable_versions() ran to "
     "completion with every element's seqnum compared against the highest recoverable seqnum - a newer one makes "
-    "the function return without _done(). "
-    "Undecided: which servers hold which shares, arrival order of answers, RSA/hash strength.")
+    "the function return without _done(); once it has seen a newer unrecoverable version, or found nothing "
+    "recoverable, every return has called self._send_more_queries(n) (n not a constant < 1) or _done(), or is on the "
+    "branch where queries are still outstanding. "
+    "Undecided: which servers hold which shares, arrival order of answers, RSA/hash strength; that "
+    "_send_more_queries really reaches a new server (its loop arithmetic) and that an updater which merely stops "
+    "with the query quota unmet is re-triggered (liveness); the MODE_WRITE/MODE_CHECK completion policies (the "
+    "property is relative to what the survey observed); the values stored in the header fields other than seqnum.")
 TECHNIQUE = ("static analysis: polynomial normal form of the seqnum formula, who-may-write, tuple-shape agreement "
              "across producers/consumers, CFG x fact-monitor exploration of the MODE_READ completion predicate")
 
@@ -184,6 +193,38 @@ def run(ctx: Context):
                 for (t, w) in find_path_avoiding(cfg, lambda x, _n=n: x is _n, gate_node=plain_sort, kill=reorders):
                     r.violation(bf, bf.loc(t.ast), "the recoverable versions are not in ascending tuple order when the "
                                 "last one is returned as the best (path: %s)" % w.brief(), w)
+        # ... and "no best version" is answered only when there is no recoverable version at all
+        bcfg = cfg
+
+        def _none_result(m):
+            if is_return(m):
+                return m.ast.value is None or (isinstance(m.ast.value, ast.Constant) and m.ast.value.value is None)
+            return m.kind not in ("entry", "exit", "raise") and not is_raise(m) and any(
+                d == bcfg.exit.id and lab != "exc" for (d, lab) in bcfg.succ[m.id])
+
+        def _known_empty(a, lab):
+            if a.kind == "except":
+                return True         # max() / [-1] of an empty collection raised
+            f = bn.edge_fact(a, lab)
+            if not f:
+                return False
+            op, x, y = f
+            if op == "false":
+                return re.match(r"^%s$" % RV, x or "") is not None
+            ln = r"^len\(%s\)$" % RV
+            if op == "==":
+                return (x == "0" and re.match(ln, y or "")) or (y == "0" and re.match(ln, x or ""))
+            if op == "<":
+                return y == "1" and re.match(ln, x or "") is not None
+            if op == "<=":
+                return y == "0" and re.match(ln, x or "") is not None
+            return False
+        nones = [m for m in bcfg.nodes if _none_result(m)]
+        for m in nones:
+            r.site(bf, m.ast, "no best version")
+        for (t, w) in find_path_avoiding(bcfg, _none_result, gate_edge=_known_empty):
+            r.violation(bf, bf.loc(t.ast), "best_recoverable_version answers None although recoverable versions may "
+                        "exist: a read then fails instead of returning the newest of them (path: %s)" % w.brief(), w)
         # recoverable / unrecoverable: k distinct share numbers
         kn = idx.func(SM + ".add_new_share")
         kps = first_positional_params(kn)
@@ -272,7 +313,7 @@ def run(ctx: Context):
     # ---- 1. new sequence number -------------------------------------------
     with ctx.rule("C11.1", "R6/R4", "Publish._new_seqnum = servermap.highest_seqnum() + c (c >= 1), or a constant >= 1 "
                   "without a servermap; it alone feeds the writers' seqnum; highest_seqnum() is the unfiltered maximum "
-                  "over all known versions", expected=11) as r:
+                  "over all known versions; add_new_share() enters every share", expected=12) as r:
         _need("the verinfo shape of C11.2", shape)
         iSEQ = shape["SEQ"]
         allowed_fns = {"allmydata." + PUB + ".publish", "allmydata." + PUB + ".update"}
@@ -408,10 +449,75 @@ def run(ctx: Context):
                 r.violation(fn, fn.loc(lp.ast), "%s can skip a version / share (a filtered survey makes "
                             "highest_seqnum() miss versions the writer has seen)" % short(fn), witness(cfg, parent, ps))
 
+        # every share handed to add_new_share() is entered in _known_shares, with its verinfo where
+        # make_versionmap() reads it and under the key shape make_versionmap() takes apart
+        with_mv = idx.func(SM + ".make_versionmap")
+        mvn = FlowNorm(with_mv, depth=8)
+        mv_loops = [n for n in with_mv.cfg().nodes if n.kind == "iter"
+                    and re.match(r"^(list\()?self\._known_shares\.items\(\)\)?$", mvn.norm(n, n.ast.iter))]
+        mv_adds = [c for c in calls_in_func(with_mv, "add") if call_name(c) == "versionmap.add" and c.args]
+        if len(mv_loops) != 1 or len(mv_adds) != 1:
+            raise AnchorVanished("make_versionmap: loop over _known_shares / versionmap.add")
+        tg = mv_loops[0].ast.target
+        if not (isinstance(tg, ast.Tuple) and len(tg.elts) == 2 and all(isinstance(e, ast.Tuple) for e in tg.elts)):
+            raise AnchorVanished("make_versionmap no longer unpacks ((server, shnum), (verinfo, timestamp))")
+        key_len, val_len = len(tg.elts[0].elts), len(tg.elts[1].elts)
+        vpos = [i for i, e in enumerate(tg.elts[1].elts) if attr_path(e) is not None
+                and attr_path(e) == attr_path(mv_adds[0].args[0])]
+        if len(vpos) != 1:
+            raise AnchorVanished("make_versionmap: the version a share is filed under is not a field of the "
+                                 "_known_shares value")
+        an = idx.func(SM + ".add_new_share")
+        anm = FlowNorm(an, depth=8)
+        acfg = an.cfg()
+        aps = first_positional_params(an)
+        st_nodes = [n for n in acfg.nodes if "self._known_shares[]" in node_stores(n)]
+
+        def _enters(n):
+            if n not in st_nodes or not isinstance(n.ast, ast.Assign):
+                return False
+            v = anm.resolve(n, n.ast.value)
+            t = [x for x in n.ast.targets if isinstance(x, ast.Subscript)]
+            k = anm.resolve(n, t[0].slice) if t else None
+            return isinstance(v, ast.Tuple) and len(v.elts) == val_len and attr_path(v.elts[vpos[0]]) in aps \
+                and isinstance(k, ast.Tuple) and len(k.elts) == key_len
+        # which parameter is the version: the one the updater binds to the re-packed verinfo of the share it checked
+        vparams = set()
+        for cs in cg.calls_named("add_new_share"):
+            if cs.fn.cls is None or cs.fn.cls.name != "ServermapUpdater":
+                continue
+            ccfg = cs.fn.cfg()
+            at = _node_of(cs.fn, cs.call)
+            rd = reaching_defs(ccfg).get(at.id, {})
+            for i, p_ in enumerate(aps):
+                a_ = arg(cs.call, i, p_)
+                if isinstance(a_, ast.Name):
+                    ds = [ccfg.nodes[d] for d in rd.get(a_.id, ()) if d >= 0]
+                    vals = [assign_value(d, a_.id) for d in ds]
+                    if ds and len(ds) == len(rd.get(a_.id, ())) and all(
+                            isinstance(v, ast.Call) and call_name(v) == "self._make_verinfo_hashable" for v in vals):
+                        vparams.add(p_)
+                elif isinstance(a_, ast.Call) and call_name(a_) == "self._make_verinfo_hashable":
+                    vparams.add(p_)
+            r.site(cs.fn, cs.call, "survey records a share")
+        if len(vparams) != 1:
+            raise AnchorVanished("the servermap updater no longer hands the re-packed verinfo of a checked share to "
+                                 "ServerMap.add_new_share (found %s)" % sorted(vparams))
+        aps = sorted(vparams)
+        r.site(an, st_nodes[0].ast if st_nodes else None, "share entered in the map")
+        for n in st_nodes:
+            r.require(_enters(n), an, an.loc(n.ast), "add_new_share stores %s: make_versionmap() expects a %d-field key and "
+                      "the version at field %d of a %d-field value" % (src(an, n.ast), key_len, vpos[0], val_len))
+        lost = find_path_avoiding(acfg, lambda x: x.kind == "exit", gate_node=_enters, skip_exc_edges=True)
+        for (t, w) in lost:
+            r.violation(an, an.loc(), "add_new_share can return without entering the share in _known_shares: the "
+                        "survey forgets a version it has seen, so highest_seqnum() and the recoverable versions miss it "
+                        "(path: %s)" % w.brief(), w)
+
     # ---- 3. MODE_READ completion -------------------------------------------
     with ctx.rule("C11.3", "R1/E3", "ServermapUpdater._check_for_done in MODE_READ: _done() only with nothing left to "
-                  "ask, or with quota met, a recoverable version, and no unrecoverable version of higher seqnum",
-                  expected=3) as r:
+                  "ask, or with quota met, a recoverable version, and no unrecoverable version of higher seqnum; with "
+                  "a newer unrecoverable version (or none recoverable) it asks further servers", expected=5) as r:
         _need("the verinfo shape of C11.2", shape)
         iSEQ = shape["SEQ"]
         fn = idx.func(SMU + "._check_for_done")
@@ -443,7 +549,11 @@ def run(ctx: Context):
                     return (op == "in") != ("MODE_READ" in names)
             return False
 
-        FIELDS = ("qe", "xe", "quota", "recov", "loop", "unchecked")
+        FIELDS = ("qe", "xe", "quota", "recov", "loop", "unchecked", "need", "sent", "wait", "done")
+        need_edges = {}
+        sends = [n for n in cfg.nodes if any(call_name(c) == "self._send_more_queries" for c in node_calls(n))]
+        if not sends:
+            raise AnchorVanished("_check_for_done no longer calls self._send_more_queries")
 
         def tr(a, lab, nx, st):
             f = fnm.edge_fact(a, lab)
@@ -466,6 +576,22 @@ def run(ctx: Context):
                         var = attr_path(lp.ast.target)
                         if var and x == "%s[%d]" % (var, iSEQ) and HIGH.match(y or ""):
                             s["unchecked"] = False
+                        if var and y == "%s[%d]" % (var, iSEQ) and HIGH.match(x or ""):
+                            # evidence of a version newer than (or as new as) the best recoverable one
+                            s["need"] = True
+                            need_edges.setdefault((a.id, lab[0]), (a, "an unrecoverable version with a higher seqnum was seen"))
+                if (op == "false" and re.match(r"^%s$" % RECOV, x)) or \
+                        (op == "is" and "None" in (x, y) and "self._servermap.best_recoverable_version()" in (x, y)):
+                    s["need"] = True
+                    need_edges.setdefault((a.id, lab[0]), (a, "no version is recoverable yet"))
+                if op == "truth" and x == "self._queries_outstanding":
+                    s["wait"] = True
+            if lab != "exc":
+                for c in node_calls(a):
+                    if call_name(c) == "self._send_more_queries":
+                        s["sent"] = True
+                    elif call_name(c) == "self._done":
+                        s["done"] = True
             if a.kind == "iter" and a in loops:
                 if lab == "iter":
                     s["unchecked"] = True
@@ -508,6 +634,33 @@ def run(ctx: Context):
                                 "<= the highest recoverable seqnum; a newer version must make the updater keep "
                                 "querying (path: %s)" % w.brief(), w)
                     break
+        # a newer version that cannot be recovered yet (or nothing recoverable at all) makes the updater ask further
+        # servers: the function may not just return
+        for (a, _why) in need_edges.values():
+            r.site(fn, a.ast, "need-more decision")
+        for st in reach.get(cfg.exit.id, []):
+            s = dict(zip(FIELDS, st))
+            if s["need"] and not (s["sent"] or s["wait"] or s["done"]):
+                w = witness(cfg, parent, (cfg.exit.id, st))
+                why = [wh for ((_i, l0), (a, wh)) in sorted(need_edges.items(), key=lambda kv: kv[0])
+                       if any(pn is a and isinstance(_l, tuple) and _l[0] == l0 for (pn, _l) in w.path)]
+                r.violation(fn, fn.loc(), "MODE_READ update returns without asking further servers (no "
+                            "self._send_more_queries(..), no query outstanding) although %s (path: %s)"
+                            % (" and ".join(why) or "more answers are needed", w.brief()), w)
+                break
+        for n in sends:
+            if n.id not in reach:
+                continue
+            for c in node_calls(n):
+                if call_name(c) == "self._send_more_queries":
+                    a0 = arg(c, 0, "num_outstanding")
+                    try:
+                        k0 = int(fnm.norm(n, a0).strip("()")) if a0 is not None else None
+                    except ValueError:
+                        k0 = None
+                    r.require(a0 is not None and (k0 is None or k0 >= 1), fn, fn.loc(c),
+                              "self._send_more_queries(%s) keeps at most %s queries in flight: no further server is ever "
+                              "asked" % (src(fn, a0) if a0 is not None else "", k0))
         # the updater runs in the mode the reader asked for
         ui = idx.func(SMU + ".__init__")
         ok = any(assign_value(n, "self.mode") is not None and attr_path(assign_value(n, "self.mode")) == "mode"
